@@ -3,6 +3,7 @@ package checks
 import (
 	"fmt"
 	"sort"
+	"strconv"
 	"strings"
 	"time"
 
@@ -324,6 +325,90 @@ func runC13(ctx *report.Ctx) {
 				return
 			}
 			checkLine(ctx, c, "M5", l, markers > 0, nil)
+		})
+	}
+
+	// V: numeric property values. Every decimal literal i.f over a grid of integer parts and every fraction
+	// string of <=3 (quick) / 4 (thorough) digits, long fractions of up to 40 digits, and integers with
+	// leading zeros, in every syntactic position a value can take; the expected value is the decimal
+	// meaning of the literal as written (strconv.ParseFloat of the very characters).
+	{
+		ints := []string{"0", "1", "2", "3", "9", "12", "100", "007"}
+		if !ctx.Quick() {
+			for i := 4; i <= 20; i++ {
+				ints = append(ints, fmt.Sprint(i))
+			}
+			ints = append(ints, "99", "255", "1000", "65536", "123456789", "4503599627370497", "9007199254740993")
+		}
+		maxFrac := report.Pick(ctx, 3, 4)
+		var fracs []string
+		var rec func(prefix string)
+		rec = func(prefix string) {
+			if prefix != "" {
+				fracs = append(fracs, prefix)
+			}
+			if len(prefix) < maxFrac {
+				for d := 0; d < 10; d++ {
+					rec(prefix + fmt.Sprint(d))
+				}
+			}
+		}
+		rec("")
+		nGrid := len(fracs)
+		for n := maxFrac + 1; n <= 40; n++ {
+			for _, d := range []string{"0", "1", "3", "9"} {
+				fracs = append(fracs, strings.Repeat(d, n))
+			}
+			fracs = append(fracs, strings.Repeat("0", n-1)+"4", "30000000000000004000000000000000000000001"[:n], "14285714285714285714285714285714285714285"[:n], "49999999999999994499999999999999999999999"[:n])
+		}
+		ctx.Bound("V_integer_parts", len(ints))
+		ctx.Bound("V_fraction_strings", len(fracs))
+		ctx.Bound("V_fraction_strings_complete_up_to_digits", maxFrac)
+		_ = nGrid
+		part(ctx, "V", -1, func(c *explore.Chooser) {
+			ip := ints[c.Choose(len(ints), "int")]
+			form := c.Choose(4, "form")
+			if !c.Mine() {
+				return
+			}
+			fi := c.Choose(len(fracs)+1, "fraction")
+			l := &mg.Line{}
+			l.Text("t ")
+			var pr mg.Prop
+			if fi == 0 {
+				n, _ := strconv.Atoi(ip)
+				pr = mg.Prop{Name: "x", Src: ip, Val: mg.PVal{Kind: "int", I: n}}
+			} else {
+				src := ip + "." + fracs[fi-1]
+				f, err := strconv.ParseFloat(src, 64)
+				if err != nil {
+					ctx.HarnessError("C13 V: %q: %v", src, err)
+					return
+				}
+				pr = pFloat("x", src, f)
+			}
+			switch form {
+			case 0:
+				l.Open("a", []mg.Prop{pr}, false)
+				l.Text("u")
+				l.Close("a")
+			case 1:
+				pr.Name = "a"
+				l.Open("a", []mg.Prop{pr}, true)
+				l.Text("u")
+				l.CloseAll()
+			case 2:
+				l.SelfClosing("a", []mg.Prop{pr})
+			case 3:
+				l.Open("a", []mg.Prop{pWord("w", "z"), pr, pBool("k", "true", true)}, false)
+				l.Text("u")
+				l.Close("a")
+			}
+			if !l.Finish() || l.Ambiguous != "" {
+				ctx.HarnessError("C13 V: construction not closed: %s", l.Src.String())
+				return
+			}
+			checkLine(ctx, c, "V", l, true, nil)
 		})
 	}
 
